@@ -536,6 +536,15 @@ def run_Q7(chk):
                         st = A.stmt_of(x, par)
                         tests = [t for t in ast.walk(f.node) if isinstance(t, ast.If) and "_patch" in A.text(t.test)]
                         ok = bool(tests) and cfg.must_pass([st], [cfg.node_of[tests[0]]]) and any(isinstance(b_, ast.Return) and "_patch" in A.text(b_) for b_ in tests[0].body)
+                        if not ok:
+                            # conditional-expression form: `self._patch[site] if site in self._patch else self._site_data[..]`
+                            for ie in ast.walk(f.node):
+                                if isinstance(ie, ast.IfExp) and "_patch" in A.text(ie.test) and any(x is y for y in ast.walk(ie.orelse)) and "_patch[" in A.text(ie.body) \
+                                        and isinstance(ie.test, ast.Compare) and isinstance(ie.test.ops[0], ast.In):
+                                    ok = True
+                                if isinstance(ie, ast.IfExp) and "_patch" in A.text(ie.test) and any(x is y for y in ast.walk(ie.body)) and "_patch[" in A.text(ie.orelse) \
+                                        and isinstance(ie.test, ast.Compare) and isinstance(ie.test.ops[0], ast.NotIn):
+                                    ok = True
                         chk.verdict("Q7", (f, x), "Lattice.__getitem__: patch looked up before the stored data", True if ok else False,
                                     "Lattice.__getitem__: the stored data is read without consulting the patch first")
                     else:
@@ -656,6 +665,9 @@ def run_Q5(chk):
                             f"boundary, without testing it: the lattice lists a bond with a missing end (not a pair of nearest neighbours)")
 
 MUTANTS = [
+    ('diagonal bonds kept as a list', 'yastn/tn/fpeps/_geometry.py', '            self._bonds_d = tuple(bonds_d)', '            self._bonds_d = bonds_d', 'Q5'),
+    ('f_ordered by linear index', 'yastn/tn/fpeps/_geometry.py', '        return s0[1] < s1[1] or (s0[1] == s1[1] and s0[0] <= s1[0])', '        return s0[1] * self.Nx + s0[0] <= s1[1] * self.Nx + s1[0]', 'Q6'),
+    ('move_to_patch bypasses the patch', 'yastn/tn/fpeps/_geometry.py', '            self._patch[site] = self[site].shallow_copy()', '            self._patch[site] = self._site_data[self.site2index(site)].shallow_copy()', 'Q7'),
     ("direction tests folded into a loop in another order", "yastn/tn/fpeps/_geometry.py", "        if self.nn_site(s0, 'r') == s1 and self.nn_site(s1, 'l') == s0:\n            return 'lr'  # dirn\n        if self.nn_site(s0, 'b') == s1 and self.nn_site(s1, 't') == s0:\n            return 'tb'\n        if self.nn_site(s0, 'l') == s1 and self.nn_site(s1, 'r') == s0:\n            return 'rl'\n        if self.nn_site(s0, 't') == s1 and self.nn_site(s1, 'b') == s0:\n            return 'bt'\n", "        for d0, d1 in ('tb', 'lr', 'bt', 'rl'):\n            if self.nn_site(s0, d0) == s1 and self.nn_site(s1, d1) == s0:\n                return d1 + d0\n", "Q2"),
     ("dir table entry", "yastn/tn/fpeps/_geometry.py", "'tl': (-1, -1), 't': (-1, 0), 'tr': (-1,  1),", "'tl': (-1, -1), 't': (-1, 0), 'tr': (-1,  -1),", "Q1"),
     ("label rl for r", "yastn/tn/fpeps/_geometry.py", "            return 'lr'  # dirn", "            return 'rl'  # dirn", "Q2"),
